@@ -13,7 +13,9 @@ TStep ==
                           /\ key' = [t \in Ticks |-> FALSE] /\ expired' = [t \in Ticks |-> FALSE] /\ told' = [t \in Ticks |-> 0]
        [] e.op = "Fire"   -> Fire(e.n, e.t)
        [] e.op = "Check"  -> Check(e.n, e.t, e.r)
-       [] e.op = "Claim"  -> Claim(e.n, e.t, e.r) /\ (e.r = "err" \/ e.fresh)
+       [] e.op = "Claim"  -> /\ Claim(e.n, e.t, e.r) /\ e.fresh
+                             /\ (e.next = "tell") = (pc'[<<e.n, e.t>>] = "tell")
+                             /\ e.ack = (IF e.r = "tmoa" THEN "tmo" ELSE e.r)
        [] e.op = "Tell"   -> Tell(e.n, e.t) /\ e.dlv = 1
        [] e.op = "Expire" -> Expire(e.t)
        [] e.op = "End"    -> e.drift = "" /\ (\A th \in Th : pc[th] \in {"idle", "done"}) /\ UNCHANGED vars
